@@ -26,11 +26,50 @@ const (
 	cfgTCP       = 2 // controller configured with an address and protocol tcp: SendTCP
 )
 
-var cfgNames = []string{"unconfigured", "configured-udp", "configured-tcp"}
+// "Rich" configurations: the controller is described in more detail (door names, a name, a time
+// zone, built through NewDevice, configured without an address). Whether a call is rejected is a
+// function of its arguments alone, so every table-built family is repeated through each of them.
+const (
+	cfgDoors1    = 3 // udp, one door name
+	cfgDoors2    = 4 // tcp, two door names
+	cfgDoors3    = 5 // udp, three door names, no time zone
+	cfgDoors5    = 6 // udp, five door names
+	cfgNewDevice = 7 // built by uhppote.NewDevice with four door names and a DST time zone
+	cfgNoAddress = 8 // configured (two door names) without an address: broadcast path
+)
+
+var richCfgs = []int{cfgDoors1, cfgDoors2, cfgDoors3, cfgDoors5, cfgNewDevice, cfgNoAddress}
+
+var cfgNames = []string{"unconfigured", "configured-udp", "configured-tcp", "configured-udp-1-door-name", "configured-tcp-2-door-names",
+	"configured-udp-3-door-names-no-zone", "configured-udp-5-door-names", "configured-through-NewDevice-4-door-names-Santiago", "configured-without-address-2-door-names"}
+
+func richDevice(cfg int, id uint32) uhppote.Device {
+	addr := types.MustParseControllerAddr("192.168.1.100:60000")
+	switch cfg {
+	case cfgDoors1:
+		return uhppote.Device{Name: "one", DeviceID: id, Address: addr, Doors: []string{"Front"}, TimeZone: time.UTC, Protocol: "udp"}
+	case cfgDoors2:
+		return uhppote.Device{Name: "two", DeviceID: id, Address: addr, Doors: []string{"Front", "Back"}, TimeZone: time.UTC, Protocol: "tcp"}
+	case cfgDoors3:
+		return uhppote.Device{Name: "three", DeviceID: id, Address: addr, Doors: []string{"A", "B", "C"}, Protocol: "udp"}
+	case cfgDoors5:
+		return uhppote.Device{Name: "five", DeviceID: id, Address: addr, Doors: []string{"A", "B", "C", "D", "E"}, TimeZone: time.UTC, Protocol: "udp"}
+	case cfgNewDevice:
+		tz, err := time.LoadLocation("America/Santiago")
+		if err != nil {
+			panic(err)
+		}
+		return uhppote.NewDevice("new", id, addr, "udp", []string{"A", "B", "C", "D"}, tz)
+	default:
+		return uhppote.Device{Name: "", DeviceID: id, Doors: []string{"A", "B"}, TimeZone: time.UTC}
+	}
+}
 
 func newClient(cfg int, id uint32) (*client, error) {
 	devices := []uhppote.Device{}
 	switch cfg {
+	case cfgDoors1, cfgDoors2, cfgDoors3, cfgDoors5, cfgNewDevice, cfgNoAddress:
+		devices = append(devices, richDevice(cfg, id))
 	case cfgUDP, cfgTCP:
 		protocol := "udp"
 		if cfg == cfgTCP {
